@@ -78,12 +78,23 @@ def _(index, length):
 def _(self, l, r, values):
     requires(0 <= l and l <= r and values != None and l + len(values) <= len(self._repeated.items))
     requires(forall(lambda k: implies(0 <= k and k < len(values), self._repeated.items[l + k] == values[k]), values[k]))
-    modifies('RepeatedNodeWrapper.g_l@self', 'RepeatedNodeWrapper.g_r@self', 'RepeatedNodeWrapper.g_nv@self')
+    requires(self._update_handlers != None and forall(lambda k: implies(0 <= k and k < len(self._update_handlers), self._update_handlers[k] != None), self._update_handlers[k]))
+    modifies('RepeatedNodeWrapper.g_l@self', 'RepeatedNodeWrapper.g_r@self', 'RepeatedNodeWrapper.g_nv@self',
+             'RepeatedNodeWrapperUpdateHandler.g_hl', 'RepeatedNodeWrapperUpdateHandler.g_hr', 'RepeatedNodeWrapperUpdateHandler.g_hv')
+    ghost('g_l', l)
+    ghost('g_r', r)
+    ghost('g_nv', len(values))
+    invariant(0, forall(lambda k: implies(0 <= k and k < K, self._update_handlers[k].g_hl == l and self._update_handlers[k].g_hr == r and self._update_handlers[k].g_hv == values), self._update_handlers[k])
+                 and self._update_handlers is old(self._update_handlers))
     ensures(self.g_l == l and self.g_r == r and self.g_nv == len(values))
+    # every handler (they are pairwise distinct objects) has been told exactly this
+    ensures(implies(forall(lambda j, k: implies(0 <= j and j < k and k < len(self._update_handlers), self._update_handlers[j] != self._update_handlers[k])),
+                    forall(lambda k: implies(0 <= k and k < len(self._update_handlers), self._update_handlers[k].g_hl == l and self._update_handlers[k].g_hr == r and self._update_handlers[k].g_hv == values), self._update_handlers[k])))
 
 @macro
 def W(s):
-    return s != None and s._repeated != None and s._repeated.items != None and s._repeated._token_store != None and forall(lambda k: implies(0 <= k and k < len(s._repeated.items), s._repeated.items[k] != None), s._repeated.items[k])
+    return (s != None and s._repeated != None and s._repeated.items != None and s._repeated._token_store != None and forall(lambda k: implies(0 <= k and k < len(s._repeated.items), s._repeated.items[k] != None), s._repeated.items[k])
+        and s._update_handlers != None and forall(lambda k: implies(0 <= k and k < len(s._update_handlers), s._update_handlers[k] != None), s._update_handlers[k]))
 
 @macro
 def Announced(s, n0):     # items' == old[:l] ++ values ++ old[r:]  with the announced (l, r, number of values); n0 = old length
@@ -94,7 +105,8 @@ def Announced(s, n0):     # items' == old[:l] ++ values ++ old[r:]  with the ann
 @contract('RepeatedNodeWrapper.append')
 def _(self, value):
     requires(W(self) and value != None)
-    modifies('list[RawModel]@self._repeated.items', 'RepeatedNodeWrapper.g_l@self', 'RepeatedNodeWrapper.g_r@self', 'RepeatedNodeWrapper.g_nv@self')
+    modifies('list[RawModel]@self._repeated.items', 'RepeatedNodeWrapper.g_l@self', 'RepeatedNodeWrapper.g_r@self', 'RepeatedNodeWrapper.g_nv@self',
+             'RepeatedNodeWrapperUpdateHandler.g_hl', 'RepeatedNodeWrapperUpdateHandler.g_hr', 'RepeatedNodeWrapperUpdateHandler.g_hv')
     raises('ValueError', 'list[RawModel]')
     ensures(len(self._repeated.items) == old(len(self._repeated.items)) + 1 and self._repeated.items[old(len(self._repeated.items))] is value)
     ensures(Announced(self, old(len(self._repeated.items))) and self.g_l == old(len(self._repeated.items)) and self.g_nv == 1)
@@ -102,7 +114,8 @@ def _(self, value):
 @contract('RepeatedNodeWrapper.insert')
 def _(self, index, value):
     requires(W(self) and value != None)
-    modifies('list[RawModel]@self._repeated.items', 'RepeatedNodeWrapper.g_l@self', 'RepeatedNodeWrapper.g_r@self', 'RepeatedNodeWrapper.g_nv@self')
+    modifies('list[RawModel]@self._repeated.items', 'RepeatedNodeWrapper.g_l@self', 'RepeatedNodeWrapper.g_r@self', 'RepeatedNodeWrapper.g_nv@self',
+             'RepeatedNodeWrapperUpdateHandler.g_hl', 'RepeatedNodeWrapperUpdateHandler.g_hr', 'RepeatedNodeWrapperUpdateHandler.g_hv')
     raises('ValueError', 'list[RawModel]')
     # Python list.insert: negative positions count from the end, everything is clamped to [0, len]
     ensures(self.g_l == old(ite(index < 0, ite(index + len(self._repeated.items) < 0, 0, index + len(self._repeated.items)), ite(index > len(self._repeated.items), len(self._repeated.items), index))))
@@ -112,7 +125,8 @@ def _(self, index, value):
 def _(self, values):
     types(values='list[RawModel]')
     requires(W(self) and values != None and values is not self._repeated.items and forall(lambda k: implies(0 <= k and k < len(values), values[k] != None), values[k]))
-    modifies('list[RawModel]@self._repeated.items', 'list[RawModel]@fresh', 'RepeatedNodeWrapper.g_l@self', 'RepeatedNodeWrapper.g_r@self', 'RepeatedNodeWrapper.g_nv@self')
+    modifies('list[RawModel]@self._repeated.items', 'list[RawModel]@fresh', 'RepeatedNodeWrapper.g_l@self', 'RepeatedNodeWrapper.g_r@self', 'RepeatedNodeWrapper.g_nv@self',
+             'RepeatedNodeWrapperUpdateHandler.g_hl', 'RepeatedNodeWrapperUpdateHandler.g_hr', 'RepeatedNodeWrapperUpdateHandler.g_hv')
     raises('ValueError', 'list[RawModel]')
     invariant(0, len(self._repeated.items) == old(len(self._repeated.items)))
     ensures(self.g_l == old(len(self._repeated.items)) and self.g_r == self.g_l and self.g_nv == len(values) and Announced(self, old(len(self._repeated.items))))
@@ -121,14 +135,16 @@ def _(self, values):
 @contract('RepeatedNodeWrapper.pop')
 def _(self, index):
     requires(W(self) and 0 <= index and index < len(self._repeated.items))      # engine restriction: non-negative positions (negative ones are bounded-checked)
-    modifies('list[RawModel]@self._repeated.items', 'RepeatedNodeWrapper.g_l@self', 'RepeatedNodeWrapper.g_r@self', 'RepeatedNodeWrapper.g_nv@self')
+    modifies('list[RawModel]@self._repeated.items', 'RepeatedNodeWrapper.g_l@self', 'RepeatedNodeWrapper.g_r@self', 'RepeatedNodeWrapper.g_nv@self',
+             'RepeatedNodeWrapperUpdateHandler.g_hl', 'RepeatedNodeWrapperUpdateHandler.g_hr', 'RepeatedNodeWrapperUpdateHandler.g_hv')
     ensures(result is old(self._repeated.items[index]) and self.g_l == index and self.g_r == index + 1 and self.g_nv == 0 and Announced(self, old(len(self._repeated.items))))
 
 @contract('RepeatedNodeWrapper.__setitem__')
 def _(self, index, value):
     types(index='int', value='RawModel')
     requires(W(self) and value != None)
-    modifies('list[RawModel]@self._repeated.items', 'Range.start@fresh', 'Range.stop@fresh', 'Range.step@fresh', 'RepeatedNodeWrapper.g_l@self', 'RepeatedNodeWrapper.g_r@self', 'RepeatedNodeWrapper.g_nv@self')
+    modifies('list[RawModel]@self._repeated.items', 'Range.start@fresh', 'Range.stop@fresh', 'Range.step@fresh', 'RepeatedNodeWrapper.g_l@self', 'RepeatedNodeWrapper.g_r@self', 'RepeatedNodeWrapper.g_nv@self',
+             'RepeatedNodeWrapperUpdateHandler.g_hl', 'RepeatedNodeWrapperUpdateHandler.g_hr', 'RepeatedNodeWrapperUpdateHandler.g_hv')
     raises('IndexError', 'list[RawModel]')
     raises('ValueError', 'list[RawModel]')
     ensures(self.g_l == old(ite(index < 0, index + len(self._repeated.items), index)) and self.g_r == self.g_l + 1 and self.g_nv == 1
@@ -140,3 +156,25 @@ def _(value, token_store):
     requires(value != None)
     modifies()
     raises('ValueError', when=value.g_ts is token_store)
+
+# ---- the announcement itself: every registered handler is told exactly (l, r, values); the handlers only touch their own state
+@contract('RepeatedNodeWrapperUpdateHandler.handle_splice')
+def _(self, l, r, value):
+    requires(0 <= l and l <= r and value != None)
+    modifies('RepeatedNodeWrapperUpdateHandler.g_hl@self', 'RepeatedNodeWrapperUpdateHandler.g_hr@self', 'RepeatedNodeWrapperUpdateHandler.g_hv@self')
+    ensures(self.g_hl == l and self.g_hr == r and self.g_hv == value)
+
+@contract('RepeatedNodeWrapperUpdateHandler.handle')
+def _(self):
+    modifies('RepeatedNodeWrapperUpdateHandler.g_hl@self', 'RepeatedNodeWrapperUpdateHandler.g_hr@self', 'RepeatedNodeWrapperUpdateHandler.g_hv@self')
+
+@contract('RepeatedNodeWrapper.__len__')
+def _(self):
+    requires(W(self))
+    modifies()
+    ensures(result == len(self._repeated.items))
+
+@contract('RepeatedNodeWrapper.repeated')
+def _(self):
+    modifies()
+    ensures(result is self._repeated)
